@@ -350,6 +350,11 @@ class StreamReader:
         if not self._protocol.connected:
             raise RuntimeError("Connection closed.")
 
+        # set_exception() only wakes a reader that is already waiting: an
+        # error set since the caller last looked must not be slept through.
+        if self._exception is not None:
+            raise self._exception
+
         # StreamReader uses a future to link the protocol feed_data() method
         # to a read coroutine. Running two read coroutines at the same time
         # would have an unexpected behaviour. It would not possible to know
